@@ -173,6 +173,7 @@ class Compiler:
         # id of next temporary pattern
         next_temp = -1
         # First number rule names
+        temp_pats_of_rule = []
         for rule in self.lvs.rules:
             temp_pats = {}
             # First number all patterns in name
@@ -197,7 +198,10 @@ class Compiler:
                         c.id = str(next_named)
                         next_named += 1
                         self.named_pats[pid] = c.id
-            # Now adapt constraints
+            temp_pats_of_rule.append(temp_pats)
+        # Now adapt constraints. This is done after the names of all rules are numbered, since a constraint
+        # may refer to a pattern that only occurs in another rule (e.g. the rule signed by the current one).
+        for rule, temp_pats in zip(self.lvs.rules, temp_pats_of_rule):
             for cons_set in rule.comp_cons:
                 for cons in cons_set:
                     try:
